@@ -183,7 +183,9 @@ class Float___int__(Contract):
     properties = ['C05']
 
     def post(self, result):
-        return {'value': t_is_int(trip(self), result)}
+        return {'value': t_is_int(trip(self), result),
+                # the same closed form as RealFloat.__int__ (callers name the value by this term: C20 core.split)
+                'closed_form': result == t_int_value(trip(self))}
 
     def raises(self):
         return {'ValueError': self._isnan or self._isinf or not t_integral(trip(self))}
